@@ -20,6 +20,9 @@ pub fn units(tier: &str, seed: u64) -> Vec<String> {
         v.push(unit(&[("shape", s), ("n", "1"), ("fs", "PEN"), ("k", "sym"), ("a", "sym"), ("j", "3"), ("what", "area"), ("scale", "1")]));
     }
     v.push(unit(&[("shape", shapes[0]), ("n", "1"), ("fs", "CAN"), ("k", "sym"), ("a", "sym"), ("j", "-2"), ("what", "energy"), ("lm", "1"), ("scale", "1")]));
+    // down to fractions of a Wh, with load matching: no absolute magnitude may matter
+    v.push(unit(&[("shape", shapes[0]), ("n", "1"), ("fs", "PEN"), ("k", "sym"), ("a", "sym"), ("j", "-6"), ("what", "energy"), ("lm", "1"), ("scale", "1"), ("dom", "0.002:100")]));
+    v.push(unit(&[("shape", shapes[4]), ("n", "1"), ("fs", "PEN"), ("k", "sym"), ("a", "sym"), ("j", "-6"), ("what", "energy"), ("lm", "0"), ("scale", "1"), ("dom", "0.002:100")]));
     if tier == "thorough" {
         for s in shapes {
             v.push(unit(&[("shape", s), ("n", "2"), ("fs", "BAL"), ("k", "sym"), ("a", "sym"), ("j", "4"), ("what", "energy"), ("lm", "1"), ("scale", "1")]));
@@ -42,7 +45,7 @@ pub fn scenario(u: &Unit) -> String {
     let (lo, hi) = if j < 0 { (0.01 / c, 1.0e6) } else { (0.01, 1.0e6 / c) };
     let what = u.get("what");
     for l in lines.iter_mut() {
-        if what == "energy" {
+        if what == "energy" && dom_override().is_none() {
             l.dom = Dom::EnergyR(lo, hi);
         }
     }
